@@ -42,6 +42,9 @@ CLAIMED = {
     "C06": ("proof", "contract-based deductive verification: VCs from the real AST (pyvc), z3/cvc5; symbolic sets for the exclusion list; bounded symbolic execution for the imputation of initial points",
             "Proved for all values: user-supplied defaults are cast into their domain, ExclusionList contains / add / exhausted, initial points are served first-in-first-out, random sampling never returns an excluded configuration (100-draw loop unrolled), the scheduler's post-processing returns every key of the space with constants unchanged and values cast to the domain type, and the samplers / casts of C07. Bounded: imputation and de-duplication of <= 3 initial points. F6 (None before a finite space is used up) is a recorded known finding.",
             "Contract configuration space = {integer x, float lr, constant}; match strings injective (str(int); '%.6e' assumed collision-free); HyperparameterRanges.random_config assumed to return members (C07); model-based candidate generation (GP / HyperTune / DEHB / PBT explore), grid search and restrict_configurations are not covered.", "5/C06"),
+    "C14": ("exploration", "contracts on the real scheduler and searcher code: ghost model of one trial's surrogate data in the interface contract of the abstract multi-fidelity searcher, call-site preconditions decided by bounded symbolic execution (pyvc/z3); unbounded VCs for the GP searcher's pending bookkeeping",
+            "HyperbandScheduler.on_trial_result / _update_searcher / _promote_trial / on_trial_complete against an abstract searcher whose contract carries G.obs / G.pend: an observation is added at most once per (trial, level) with the reported value, only the non-rung 'latest' observation is ever removed, pending levels are unobserved levels, a promoted trial's rung observation is not removable, completion leaves no pending entry -- for every data policy and the myopic flag (rung levels [1,3,9], max_t 27, all values symbolic). Unbounded: append_pending / cleanup_pending / evaluation_failed of the GP searcher state (pending lists of any length).",
+            "Interface contracts of the abstract searcher and bracket manager assumed (the rung system side is C04); 'not pending twice' and the exact set of pending levels per policy are not covered; DyHPO, cost offsets, synchronous Hyperband not covered; running trials report strictly increasing levels.", "5/C14"),
     "C04": ("proof", "contract-based deductive verification: VCs generated from the real AST (pyvc) with loop invariants and modular callee contracts, discharged by z3/cvc5; bounded-shape stand-in for the cost-aware variant and for witnesses",
             "Unbounded verification conditions (rung contents of any length, 0..3 rungs) for PromotionRungSystem (find/mark/schedule/add/report/remove) and PASHA's resource cap in on_task_schedule, from /repo's source on every run; cost-aware eligibility bounded (<=4 entries).",
             "A-REAL; SortedList contract trusted; number of rungs concrete in proof units; cost values non-negative; PASHA ranking/epsilon logic and DyHPO not covered; pyvc encoding and SMT solvers trusted.", "5/C04"),
